@@ -391,6 +391,15 @@ func TestC06Magic(t *testing.T) {
 		}
 		cases = append(cases, string(full), n[:len(n)-1]+string('٠'+rune(n[len(n)-1]-'0')))
 	}
+	// digit strings whose length is 7, 8, 12 or 13 modulo 256 / 65536 (a length kept in a byte or a 16-bit word)
+	for _, base := range []int{256, 512, 1024, 65536, 131072} {
+		for _, l := range []int{7, 8, 12, 13} {
+			d := strings.Repeat("5901234123457", (base+l)/13+1)[:base+l-1]
+			for last := 0; last < 10; last++ {
+				cases = append(cases, d+string(byte('0'+last)))
+			}
+		}
+	}
 	parallelFor(len(cases), 16, func(i int) {
 		if ct.Failed() {
 			return
